@@ -376,3 +376,11 @@ _add("C12", "The X-compiler stand-in is repeated under several values of the glo
 _add("C02", "Mesh stand-in: every (constructor mesh, decomposition-time mesh option) pair of Interferometer.")
 _add("C07", "Stand-in: every non-Gaussian bosonic preparation (cat states of fractional parity in both representations, Fock, GKP) "
             "is a physical state (real Wigner function, unit trace, <beta|rho|beta> a probability, real photon number).")
+
+_add("C01", "Bosonic prepare_gaussian_state: subsystem i of (r, V) lands in the i-th listed mode for every ordered list of 1-3 modes of a "
+            "4-mode register (labelled symbols).")
+_add("C17", "takagi: whatever passes the validation is symmetric within the absolute tolerance (2 x 2, 3 x 3 symbolic); boundary-of-"
+            "tolerance non-symmetric inputs in the stand-in.")
+_add("C19", "Stand-in: sample post-processing (postselect, modes_from_counts, to_subgraphs on graphs with default, string, squared and "
+            "permuted integer labels) enumerated for every sample in {0,1,2}^n, n <= 4.")
+_add("C15", "Stand-in: every whole-register dimensionless query (purity, fidelity_vacuum, fidelity_coherent, trace) in the hbar sweep.")
